@@ -93,6 +93,8 @@ type c17HClient struct {
 	release   chan struct{}
 	done      chan struct{}
 	cancelled int32
+	counted   bool // under c17HMon.mu
+	mon       *c17HMon
 	relOnce   sync.Once
 }
 
@@ -128,8 +130,16 @@ func (m *c17HMon) waitUntil(what string, cond func() bool) bool {
 	}
 }
 
-func (m *c17HMon) served(c *c17HClient) {
+// served counts the connection unless the harness has already closed its socket; the decision
+// and the one in free() are taken under the same lock, so the socket of a counted connection
+// is only ever closed by its own goroutine, after closing().
+func (m *c17HMon) served(c *c17HClient) bool {
 	m.mu.Lock()
+	if atomic.LoadInt32(&c.cancelled) != 0 {
+		m.mu.Unlock()
+		return false
+	}
+	c.counted = true
 	m.gauge++
 	if m.gauge > m.maxGauge {
 		m.maxGauge = m.gauge
@@ -147,6 +157,7 @@ func (m *c17HMon) served(c *c17HClient) {
 	}
 	m.mu.Unlock()
 	atomic.AddInt64(&m.events, 1)
+	return true
 }
 
 func (m *c17HMon) closing(c *c17HClient) {
@@ -193,7 +204,7 @@ func c17Request(conn net.Conn, br *bufio.Reader) error {
 func (m *c17HMon) spawn(addr string, n int, idBase int) []*c17HClient {
 	var out []*c17HClient
 	for i := 0; i < n; i++ {
-		c := &c17HClient{id: idBase + i, servedCh: make(chan struct{}), release: make(chan struct{}), done: make(chan struct{})}
+		c := &c17HClient{mon: m, id: idBase + i, servedCh: make(chan struct{}), release: make(chan struct{}), done: make(chan struct{})}
 		conn, err := net.DialTimeout("tcp", addr, 60*time.Second)
 		if err != nil {
 			m.inconclusive("dial failed: " + err.Error())
@@ -213,7 +224,9 @@ func (m *c17HMon) spawn(addr string, n int, idBase int) []*c17HClient {
 				}
 				return
 			}
-			m.served(c)
+			if !m.served(c) {
+				return
+			}
 			close(c.servedCh)
 			<-c.release
 			// still established?  a second request on the same connection must be answered
@@ -250,11 +263,14 @@ func (c *c17HClient) isServed() bool {
 // has its socket closed.
 func (c *c17HClient) free() {
 	c.relOnce.Do(func() {
-		if c.isServed() {
+		c.mon.mu.Lock()
+		if c.counted {
+			c.mon.mu.Unlock()
 			close(c.release)
 			return
 		}
 		atomic.StoreInt32(&c.cancelled, 1)
+		c.mon.mu.Unlock()
 		c.conn.Close()
 		close(c.release)
 	})
@@ -466,7 +482,7 @@ func TestVerif_C17_HTTPRuntime(t *testing.T) {
 	r.Rule("a real httpserver runtime (fsm + http.Server + gnet.Listen + LimitListener) per case on a loopback port with maxConnections = cap in 2..6 and cap+4..cap+8 raw keep-alive HTTP clients that hold their connection; kinds: steady + reuse of released capacity | grow through a reload event | shrink through a reload event (observed in force on fresh waves) | shrink-then-grow in two back-to-back reloads at saturation | repeated identical reloads; oracle: clients that got a response and have not closed <= cap in force at every response; a held connection still answers a second request before it is closed; distinct = (kind, cap, new cap, max served)")
 	r.Assume("the completion of a shrinking reload is not observable through the runtime, so after it the bound of the oracle stays at the old cap and the new cap is only observed (progress)")
 	kinds := []string{"steady-reuse", "grow", "shrink", "shrink-then-grow-b2b", "repeated-identical"}
-	n := r.N(15, 150)
+	n := r.N(30, 400)
 	for i := 0; i < n; i++ {
 		if !r.Mine(i) {
 			continue
